@@ -14,12 +14,62 @@ fn mods_json(m: &Mods) -> Value {
   json!(m.iter().map(|(n, t)| json!({"name": n, "text": t})).collect::<Vec<_>>())
 }
 
+/// A dedicated host family for bounded type parameters of classes and functions: the bound of one
+/// parameter mentions another parameter that is declared earlier, later, or both ways. The less
+/// annotated form infers the instantiation; the rewrite writes the inferred type out as a let
+/// annotation or as explicit type arguments. Returns (before, after, description).
+fn bounded_host(t: &mut Tape) -> (String, String, String) {
+  let shapes = [
+    ("<A: Conv<B>, B>", ["A", "B"], "bound-mentions-later-parameter"),
+    ("<B, A: Conv<B>>", ["B", "A"], "bound-mentions-earlier-parameter"),
+    ("<A: Conv<B>, B: Conv<A>>", ["A", "B"], "mutual-bounds"),
+    ("<B: Conv<A>, A: Conv<B>>", ["B", "A"], "mutual-bounds-reversed"),
+  ];
+  let (tparams, order, shape) = shapes[t.choose(shapes.len())];
+  // A is instantiated with `x`, B with `y`; Feet: Conv<Meters>, Meters: Conv<Feet>
+  let swap = t.bool(1, 2);
+  let (x, y) = if swap { ("Meters", "Feet") } else { ("Feet", "Meters") };
+  let targ = |p: &str| if p == "A" { x } else { y };
+  let targs = format!("{}, {}", targ(order[0]), targ(order[1]));
+  let mut head = String::new();
+  head.push_str("interface Conv<T> {\n  method conv(): T\n}\n\n");
+  head.push_str("class Feet(val v: int) : Conv<Meters> {\n  function of(v: int): Feet = Feet.init(v)\n\n  method conv(): Meters = Meters.init(this.v * 3)\n}\n\n");
+  head.push_str("class Meters(val v: int) : Conv<Feet> {\n  function of(v: int): Meters = Meters.init(v)\n\n  method conv(): Feet = Feet.init(this.v + 1)\n}\n\n");
+  head.push_str(&format!("class Rel{tparams}(val a: A, val b: B) {{\n  method left(): A = this.a\n\n  method converted(): B = this.a.conv()\n}}\n\n"));
+  head.push_str(&format!("class Main {{\n  function {tparams} mk(a: A, b: B): B = a.conv()\n\n  function main(): unit = {{\n"));
+  let tail = "  }\n}\n";
+  let (ax, by) = (format!("{x}.of({})", 1 + t.choose(9)), format!("{y}.of({})", 1 + t.choose(9)));
+  let (before, after, what) = match t.choose(4) {
+    0 => (
+      format!("    let r = Rel.init({ax}, {by});\n    let _ = Process.println(Str.fromInt(r.converted().v + r.left().v));\n"),
+      format!("    let r: Rel<{targs}> = Rel.init({ax}, {by});\n    let _ = Process.println(Str.fromInt(r.converted().v + r.left().v));\n"),
+      "annotate-let",
+    ),
+    1 => (
+      format!("    let r = Rel.init({ax}, {by});\n    let _ = Process.println(Str.fromInt(r.converted().v + r.left().v));\n"),
+      format!("    let r = Rel.init<{targs}>({ax}, {by});\n    let _ = Process.println(Str.fromInt(r.converted().v + r.left().v));\n"),
+      "explicit-type-arguments",
+    ),
+    2 => (
+      format!("    let m = Main.mk({ax}, {by});\n    let _ = Process.println(Str.fromInt(m.v));\n"),
+      format!("    let m = Main.mk<{targs}>({ax}, {by});\n    let _ = Process.println(Str.fromInt(m.v));\n"),
+      "explicit-type-arguments(function)",
+    ),
+    _ => (
+      format!("    let g: (Rel<{targs}>) -> int = (r) -> r.converted().v;\n    let _ = Process.println(Str.fromInt(g(Rel.init({ax}, {by}))));\n"),
+      format!("    let g: (Rel<{targs}>) -> int = (r: Rel<{targs}>) -> r.converted().v;\n    let _ = Process.println(Str.fromInt(g(Rel.init({ax}, {by}))));\n"),
+      "annotate-lambda",
+    ),
+  };
+  (format!("{head}{before}{tail}"), format!("{head}{after}{tail}"), format!("{what}/{shape}"))
+}
+
 impl Prop for C13 {
   fn id(&self) -> &'static str {
     "C13"
   }
   fn rule(&self) -> String {
-    "hosts: G1 well-typed programs (accepted) and their single-fault mutants (rejected); rewrites applied on the typed IR: alpha-renaming of every local, permuting classes / members, renaming every local binder after its scope level so that sibling scopes reuse names (the reverse of renaming to fresh names), wrapping a tape-chosen expression in parentheses or a block, annotating inferred lambda parameters (optionally after dropping type arguments inside the host so that lambda bodies need their expected type), dropping let annotations, dropping lambda parameter annotations where a let annotation supplies the hint, moving a class into a new module with the corresponding imports; oracle (metamorphic): the checker's verdict is identical before and after (for annotation-dropping rewrites only accepted hosts are used and a rejection of the less annotated form is counted, not reported, because the property only speaks about making inferred types explicit), and for accepted pairs the emitted WebAssembly of both forms prints the same lines and ends the same way, equal to the reference interpreter's run; non-trivial = the rewrite changed the text and the host has >=1 generic call, lambda or match; distinct = hash of both texts".into()
+    "hosts: (1 in 12) a family of programs around a generic class and a generic function whose type-parameter bounds mention another parameter declared later, earlier or both ways (`class Rel<A: Conv<B>, B>`), in an inferred spelling and the same program with the inferred instantiation written as a let annotation, as explicit type arguments or as a lambda parameter annotation; otherwise G1 well-typed programs (accepted) and their single-fault mutants (rejected); rewrites applied on the typed IR: alpha-renaming of every local, permuting classes / members, renaming every local binder after its scope level so that sibling scopes reuse names (the reverse of renaming to fresh names), wrapping a tape-chosen expression in parentheses or a block, annotating inferred lambda parameters (optionally after dropping type arguments inside the host so that lambda bodies need their expected type), dropping let annotations, dropping lambda parameter annotations where a let annotation supplies the hint, moving a class into a new module with the corresponding imports; oracle (metamorphic): the checker's verdict is identical before and after (for annotation-dropping rewrites only accepted hosts are used and a rejection of the less annotated form is counted, not reported, because the property only speaks about making inferred types explicit), and for accepted pairs the emitted WebAssembly of both forms prints the same lines and ends the same way, equal to the reference interpreter's run; non-trivial = the rewrite changed the text and the host has >=1 generic call, lambda or match; distinct = hash of both texts".into()
   }
   fn assumptions(&self) -> Vec<String> {
     vec!["rewrites are performed on the generator's IR, so they are meaning-preserving by construction (names are unique per program; imports are derived from the module of every referenced class)".into(), "pairs on which the compiler crashes or emits an unloadable module are C03's findings and are discarded here".into()]
@@ -31,6 +81,11 @@ impl Prop for C13 {
     }
   }
   fn generate(&self, t: &mut Tape, tier: Tier) -> Value {
+    if t.bool(1, 12) {
+      let (b, a, what) = bounded_host(t);
+      let m = |x: &str| json!([{"name": ["M"], "text": x}]);
+      return json!({"before": m(&b), "after": m(&a), "entry": ["M"], "rewrite": format!("bounded-generics:{}", what.split('/').next().unwrap_or("")), "what": what, "pre_step": Value::Null, "fault": Value::Null, "features": ["generic-bounded-class", "inference"]});
+    }
     let rewrite = REWRITES[t.choose(REWRITES.len())];
     let rejected_host = !rewrite.starts_with("drop-") && t.bool(1, 4);
     let cfg = super::behav::cfg_for("C13", tier);
